@@ -231,5 +231,5 @@ func ruleR35(c *Ctx) {
 			}
 		}
 	}
-	c.r.floor("R35", 2+12, "call targets", "C05")
+	c.r.floor("R35", 8, "call targets", "C05")
 }
